@@ -842,7 +842,7 @@ func init() {
 // references macros make on behalf of their callers.
 func init() {
 	register(&Rule{ID: "MINIFY.qualified-refs-total", Floor: 1,
-		Doc: "recordQualifiedReferences recurses over the whole of <node>.Cells of every list, and the only conditions that can keep a list from that loop are tests of the node itself (nil, its Type, IsQuoted(), an empty Cells) — never its head symbol or its contents: a `pkg:name` written anywhere in evaluated or template position protects the definition it names",
+		Doc: "recordQualifiedReferences recurses over the whole of <node>.Cells of every list, and the only conditions that can keep a list from that loop are nil, its Type and an empty Cells — never its head symbol, its contents or its quoted flag (a bracket list `[cb pkg:name]` is parsed as a quoted list, and binding forms evaluate it): a `pkg:name` written anywhere protects the definition it names; recording one that is only data merely keeps a name",
 		Run: func(c *Ctx) []Obligation {
 			const rid = "MINIFY.qualified-refs-total"
 			fn, fd, pkg := c.LookupFunc("minifier.recordQualifiedReferences")
@@ -885,11 +885,10 @@ func init() {
 						}
 						return side(x.X) && side(x.Y)
 					}
-				case *ast.CallExpr:
-					if se, ok := ast.Unparen(x.Fun).(*ast.SelectorExpr); ok && se.Sel.Name == "IsQuoted" && identObj(info, se.X) == node && len(x.Args) == 0 {
-						return true
-					}
 				}
+				// node.IsQuoted() is deliberately NOT accepted: a bracket list is
+				// parsed as a quoted list and binding forms evaluate what is
+				// inside one, so "quoted" does not mean "not a reference".
 				return false
 			}
 			// the full-range recursion
@@ -978,7 +977,7 @@ func init() {
 					}
 				}
 				if guard != "" && okGuard {
-					obs = append(obs, mkOb(c, rid, u, construct, rs, Proved, "guarded by `"+guard+"`, a test of the node itself", true))
+					obs = append(obs, mkOb(c, rid, u, construct, rs, Proved, "guarded by `"+guard+"`, a test of the node's presence or type", true))
 				} else {
 					obs = append(obs, mkOb(c, rid, u, construct, rs, Violated, "a list leaves the recorder before its children are searched, on a condition about its contents (`"+guard+"`): qualified references inside such a list do not protect the definitions they name, and the renamed definition is then unbound where the reference is evaluated", true))
 				}
